@@ -3,11 +3,41 @@ package main
 const trustedNote = "Trusted base: go/packages + go/types + go/ssa (x/tools v0.29.0) for the configuration analysed; the audit table audit.json (one named construct per exception, reason recorded); the argument in DESIGN.md that each clause is a necessary condition of the property. The check decides the named structural clauses on every path / table cell of the current source; it does not execute uGO programs and does not decide the behavioural statement as a whole."
 
 func init() {
-	for _, id := range []string{"C01", "C02", "C04", "C06", "C07", "C08", "C09", "C10", "C11", "C12", "C14", "C16", "C17", "C19", "C20"} {
+	for _, id := range []string{"C01", "C02", "C04", "C08", "C10", "C11", "C12", "C16", "C17", "C20"} {
 		notApplicable[id] = "static check for this property is not implemented in this revision of /verif (planned clauses: DESIGN.md section 3); no claim is made"
 	}
 	notApplicable["C03"] = "finally-exactly-once depends on the run-time history of a per-activation handler list addressed by static nesting depths; every structural rule considered either restates today's mechanism (and would fire on a correct redesign) or is a mechanism-presence check the existing tests already pin. No sound static argument in reach bounds the handler-list history (DESIGN.md section 4)."
 
+	metas["C06"] = propMeta{
+		Text:      "Decides the structure that makes recovery possible: (recover-dom) the dispatch loop is entered only from a function with a dominating deferred closure that calls recover() under the recovery flag, and that function only from Run; (handler-guard) in the panic handler every call that can unwind to a script handler is dominated by sp <= len(stack)-1 and frameIndex <= len(frames) (interval analysis of the dominating comparisons: the unwinder indexes stack[sp]); (child-flag) a pooled child VM receives the parent's recovery flag on every path of acquire. Does not decide whether the recovery path can itself panic for some VM state, Go fatal errors, or panics in goroutines started by callbacks. 'other'.",
+		Note:      trustedNote,
+		Technique: "static analysis: call-graph callers + dominance of deferred recover, interval analysis of guard conditions, must-store on all paths",
+		DesignRef: "DESIGN.md section 3, C06",
+	}
+	metas["C07"] = propMeta{
+		Text:      "Decides: (run-reset) the set of VM fields stored by any function reachable (VTA call graph) from the dispatch loop is contained in the set stored on every path from Run's entry to the loop (must-store with callee summaries), audited persistent fields aside; (frame0-reset) every call-frame field run-time code reads is stored for frame 0 on every prologue path; (clear) Clear/SetBytecode reset stack, module cache, globals, pool / bytecode, constants, module cache; (mod-copy) the module cache is written only in the loop with Copy() of every Copier value; (bc-immutable) no run-reachable function stores into a Bytecode / CompiledFunction / Constants / Instructions / SourceMap it did not allocate. Does not decide whether residue in unreset storage (stack slots above NumLocals, frames > 0) is observable, nor object graphs reachable from globals/arguments. 'other'.",
+		Note:      trustedNote,
+		Technique: "static analysis: computed write sets over the call graph vs must-store-on-all-paths in the prologue; who-may-write query on shared bytecode types",
+		DesignRef: "DESIGN.md section 3, C07",
+	}
+	metas["C09"] = propMeta{
+		Text:      "Decides, for each happens-before edge the abort protocol needs, that the construct creating it exists: (poll) an atomic load of the abort flag decides the dispatch loop's condition on a cycle; (abort-prop) every path through Abort stores the flag and calls the pool's abort, which ranges over the registered children; (pool-lock) every access to the registry is under the pool mutex; (no-entry-clear) no store to the flag between Run's entry and the loop; (child-start-check) Invoke tests the ROOT's flag before the child run; (pool-zero) a released VM is fully reset including the flag; (ctx-abort) every ctx.Done() select arm in functions that run a VM calls Abort and, if the run was started, waits for completion; (callback-poll) sleeping library loops poll Aborted(). Does not decide promptness, fairness, the bound on further instructions, or host callbacks. 'other': protocol structure, not schedule exploration.",
+		Note:      trustedNote + " The Go memory model for atomics and mutexes is assumed.",
+		Technique: "static analysis: must-pass-through, lockset, dominance and CFG-cycle rules on SSA",
+		DesignRef: "DESIGN.md section 3, C09",
+	}
+	metas["C14"] = propMeta{
+		Text:      "Decides: (child-init) K = VM fields read by run-time code and not initialised by Run's prologue (computed) are each stored by the pool's acquire on every path, as is every Bytecode field run-time code reads; (root-share) the child's module cache is the root's slice itself and constants / recovery flag come from the root; (globals) Invoke passes the root VM's globals to the child run; (release-pair) library users pair Acquire with Release on all paths; (pool-zero) release resets every field before sync.Pool.Put. Does not decide equality of argument binding between initLocals and the in-script call sequence, nor error content. 'other'.",
+		Note:      trustedNote,
+		Technique: "static analysis: computed read set vs must-store, value-flow from the root VM, must-pass-through",
+		DesignRef: "DESIGN.md section 3, C14",
+	}
+	metas["C19"] = propMeta{
+		Text:      "Decides over builtin and stdlib function bodies: (get-bound) every Call.Get(k) is reached only with k < Len() (interval analysis per Call value: CheckLen, comparisons/switch on Len(), shift(), loop conditions, constant-parameter summaries); (assert) assertions on arguments are dominated by a successful test; (nil-vm) methods on c.VM() are nil-guarded; (size-sink) script-supplied sizes reaching Repeat/make/Grow are bounded above and below; (arith-guard) integer / % and signed shifts are guarded; (err-nil-use) a value returned with an error is used as receiver only where the error is nil; (objimpl) types embedding ObjectImpl override TypeName/String; (registry) BuiltinsMap indexes have BuiltinObjects entries. Does not decide panics inside Go library calls for other out-of-domain values, user callables, cyclic values (Go stack exhaustion). 'other'.",
+		Note:      trustedNote,
+		Technique: "static analysis: interval abstract interpretation of argument counts, dominating-guard analysis of panicking sinks, registry cross-check",
+		DesignRef: "DESIGN.md section 3, C19",
+	}
 	metas["C05"] = propMeta{
 		Text:      "Decides structural necessary conditions of 'Compile returns Bytecode or an error, never panics': (panic-reach) every explicit panic statement reachable in the VTA call graph from Compile / compileScript / Compiler.Compile / Eval.Run (VM excluded) is swallowed on every call path by a deferred recover that type-asserts its value type, or is a named audited unreachable site; (fold-guard) every integer / % and signed shift in the optimizer's folding code has a dominating zero/sign test; (cap-check) every success return after Compiler.Bytecode() is dominated by the NumLocals limit test made on that very bytecode; (op-table) for each of the opcodes the operand table, name table, MakeInstruction arm (bytes appended = sum of widths), VM dispatch arm and the width handlers of MakeInstruction/ReadOperands agree. Does not decide termination, Go stack exhaustion on deep nesting, implicit index/nil panics in general, or that emitted jump targets are in range. 'other': reachability + dominance + table agreement, not an exploration of inputs.",
 		Note:      trustedNote + " The VTA call graph is taken as an over-approximation of calls inside the repository.",
